@@ -34,6 +34,7 @@ type Config struct {
 	TableStats     bool   `json:"tablestats,omitempty"` // table statistics collection on (enables delete-only / elision-only compactions)
 	AutoDefault    bool   `json:"autodefault,omitempty"` // automatic compactions on with Pebble's DEFAULT thresholds (no forced L0 compaction)
 	TinyLBase      bool   `json:"tinylbase,omitempty"`   // LBaseMaxBytes=1 with MANUAL compactions only: data comes to rest in intermediate levels
+	DeepQueue      bool   `json:"deepqueue,omitempty"`     // MemTableStopWritesThreshold 1000: held flushes never stall writers
 	SharedCaches   bool   `json:"sharedcaches,omitempty"` // the harness passes its own block cache and file cache (kept referenced across Close)
 }
 
@@ -74,6 +75,9 @@ func (c Config) Options(fs vfs.FS) *pebble.Options {
 	}
 	if c.TinyLBase {
 		o.LBaseMaxBytes = 1
+	}
+	if c.DeepQueue {
+		o.MemTableStopWritesThreshold = 1000
 	}
 	if c.L0Sublevels {
 		o.FlushSplitBytes = 1
@@ -125,6 +129,31 @@ type X struct {
 	Opts    *pebble.Options
 	Dir     string
 	ingestN int
+	held    bool
+}
+
+// Hold holds back flushes (DB.VerifHoldFlushes) until Release; Apply releases by itself before an
+// operation that waits for a flush.
+func (x *X) Hold() {
+	if !x.held {
+		x.D.VerifHoldFlushes()
+		x.held = true
+	}
+}
+
+// Release lets held flushes go and waits until the DB is idle.
+func (x *X) Release() {
+	if x.held {
+		x.D.VerifReleaseFlushes()
+		x.held = false
+		x.D.VerifWaitIdle()
+	}
+}
+
+// CloseDB releases held flushes (Close waits for them) and closes the DB.
+func (x *X) CloseDB() error {
+	x.Release()
+	return x.D.Close()
 }
 
 // Open opens (creating if needed) a DB in dir on fs.
@@ -167,34 +196,48 @@ type Writer interface {
 	RangeKeyDelete(start, end []byte, o *pebble.WriteOptions) error
 }
 
-// ApplySimple applies a non-compound write op to w.
-func ApplySimple(w Writer, op Op, defVal string) error {
+// scribble overwrites argument buffers after a call has returned: the API does not retain its
+// arguments, so a caller may reuse them at once; an implementation that aliases one (a queued
+// flushable that remembers the caller's excise span) changes behaviour visibly.
+func scribble(bufs ...[]byte) {
+	for _, b := range bufs {
+		for i := range b {
+			b[i] = '~'
+		}
+	}
+}
+
+// ApplySimple applies a non-compound write op to w; the argument buffers are overwritten
+// afterwards (see scribble).
+func ApplySimple(w Writer, op Op, defVal string) (err error) {
 	val := op.Val
 	if val == "" {
 		val = defVal
 	}
 	o := wo(op.Sync)
+	k, e, sfx, v := []byte(op.Key), []byte(op.End), []byte(op.Suf), []byte(val)
+	defer scribble(k, e, sfx, v)
 	switch op.K {
 	case "set":
-		return w.Set([]byte(op.Key), []byte(val), o)
+		return w.Set(k, v, o)
 	case "del":
-		return w.Delete([]byte(op.Key), o)
+		return w.Delete(k, o)
 	case "delsized":
-		return w.DeleteSized([]byte(op.Key), uint32(op.N), o)
+		return w.DeleteSized(k, uint32(op.N), o)
 	case "sdel":
-		return w.SingleDelete([]byte(op.Key), o)
+		return w.SingleDelete(k, o)
 	case "merge":
-		return w.Merge([]byte(op.Key), []byte(val), o)
+		return w.Merge(k, v, o)
 	case "delrange":
-		return w.DeleteRange([]byte(op.Key), []byte(op.End), o)
+		return w.DeleteRange(k, e, o)
 	case "logdata":
-		return w.LogData([]byte(val), o)
+		return w.LogData(v, o)
 	case "rkset":
-		return w.RangeKeySet([]byte(op.Key), []byte(op.End), []byte(op.Suf), []byte(val), o)
+		return w.RangeKeySet(k, e, sfx, v, o)
 	case "rkunset":
-		return w.RangeKeyUnset([]byte(op.Key), []byte(op.End), []byte(op.Suf), o)
+		return w.RangeKeyUnset(k, e, sfx, o)
 	case "rkdel":
-		return w.RangeKeyDelete([]byte(op.Key), []byte(op.End), o)
+		return w.RangeKeyDelete(k, e, o)
 	}
 	return errors.Newf("hx: not a simple op: %s", op.K)
 }
@@ -320,19 +363,32 @@ func (x *X) Apply(step int, op Op) error {
 		if err != nil {
 			return err
 		}
-		_, err = x.D.IngestAndExcise(context.Background(), []string{p}, nil, nil,
-			pebble.KeyRange{Start: []byte(op.Key), End: []byte(op.End)})
+		span := pebble.KeyRange{Start: []byte(op.Key), End: []byte(op.End)}
+		defer scribble(span.Start, span.End)
+		_, err = x.D.IngestAndExcise(context.Background(), []string{p}, nil, nil, span)
 		return err
 	case "excise":
-		return x.D.Excise(context.Background(), pebble.KeyRange{Start: []byte(op.Key), End: []byte(op.End)})
+		span := pebble.KeyRange{Start: []byte(op.Key), End: []byte(op.End)}
+		defer scribble(span.Start, span.End)
+		return x.D.Excise(context.Background(), span)
+	case "hold":
+		x.Hold()
+		return nil
+	case "release":
+		x.Release()
+		return nil
 	case "flush":
+		x.Release()
 		return x.D.Flush()
 	case "compact":
+		x.Release()
 		s, e := op.Key, op.End
 		if s == "" {
 			s, e = "a", "z"
 		}
-		return x.D.Compact(context.Background(), []byte(s), []byte(e), false)
+		sb, eb := []byte(s), []byte(e)
+		defer scribble(sb, eb)
+		return x.D.Compact(context.Background(), sb, eb, false)
 	case "nop":
 		return nil
 	}
